@@ -170,3 +170,90 @@ func VerifC11Complete(tries, nmsgs, ctxMode, closeMode int) {
 	verifAssert(verifGoroutines() == 0, "no-goroutine-left-after-close")
 	verifReach("end")
 }
+
+// VerifC11Burst: a burst of n datagrams that are routed to the call (own transaction id,
+// BOOTREPLY, own hardware address) but rejected by its matcher (DHCPACK for an OFFER matcher),
+// more than the per-transaction buffer holds, at symbolic strictly increasing instants; optionally
+// (last != 0) followed by an acceptable one. The call still ends on schedule (or with the
+// acceptable response), the id is released and Close returns leaving no goroutine.
+// same != 0: the n datagrams arrive at one and the same instant.
+func VerifC11Burst(tries, n, last, same int) {
+	k := &verifCall{conn: newVerifConn(), tries: tries, ctxAt: -1, closeAt: -1}
+	k.T = int64(verifU32("T"))
+	verifAssume(k.T >= 1)
+	c, err := NewWithConn(k.conn, verifHW, WithTimeout(time.Duration(k.T)), WithRetry(tries))
+	verifAssert(err == nil, "client-created")
+	k.c = c
+	k.req = &dhcpv4.DHCPv4{OpCode: dhcpv4.OpcodeBootRequest, HWType: 1, TransactionID: verifXID, ClientHWAddr: verifHW, Options: dhcpv4.Options{53: []byte{1}}}
+	k.dest = verifDest()
+	w := k.T
+	for i := 0; i < tries; i++ {
+		k.budget += w
+		w += w
+	}
+	prev := int64(0)
+	var burst [][]byte
+	for i := 0; i < n; i++ {
+		at := prev
+		if same == 0 || i == 0 {
+			at = int64(verifU64("m.at"))
+			verifAssume(at > prev) // strictly later: the order of the datagrams among themselves is fixed
+			verifAssume(at <= 1<<36)
+		}
+		// same != 0: the whole burst arrives at one instant, so that the receive loop finds the
+		// per-transaction buffer full before the caller has consumed anything
+		prev = at
+		p := &dhcpv4.DHCPv4{OpCode: dhcpv4.OpcodeBootReply, HWType: 1, TransactionID: verifXID, ClientHWAddr: verifHW, Options: dhcpv4.Options{53: []byte{5}, 12: []byte{byte(i)}}}
+		if same != 0 {
+			burst = append(burst, p.ToBytes())
+			if i == n-1 {
+				from := &net.UDPAddr{IP: net.IP{192, 0, 2, 1}, Port: 67}
+				verifAt(at, func() { // one event: the datagrams are queued back to back
+					for _, d := range burst {
+						select {
+						case k.conn.in <- verifDgram{data: d, from: from}:
+						default:
+						}
+					}
+				})
+			}
+			continue
+		}
+		k.conn.deliver(at, p.ToBytes())
+	}
+	offerAt := int64(-1)
+	if last != 0 {
+		offerAt = int64(verifU64("offer.at"))
+		verifAssume(offerAt > prev)
+		verifAssume(offerAt <= 1<<36)
+		p := &dhcpv4.DHCPv4{OpCode: dhcpv4.OpcodeBootReply, HWType: 1, TransactionID: verifXID, ClientHWAddr: verifHW, Options: dhcpv4.Options{53: []byte{2}}}
+		k.conn.deliver(offerAt, p.ToBytes())
+	}
+	k.start = verifNow()
+	k.resp, k.err = c.SendAndRead(newVerifCtx(), k.dest, k.req, IsMessageType(dhcpv4.MessageTypeOffer))
+	k.end = verifNow()
+	verifObserveInt("elapsed", int(k.end-k.start))
+	verifAssert(k.end-k.start <= k.budget, "returns-within-T-times-2^tries-1")
+	if k.resp != nil {
+		verifAssert(k.err == nil, "no-error-with-response")
+		verifAssert(k.resp.MessageType() == dhcpv4.MessageTypeOffer, "response-satisfies-matcher")
+		verifAssert(last != 0 && k.end == offerAt, "returns-as-soon-as-acceptable-response-arrives")
+	} else {
+		verifAssert(k.err == ErrNoResponse, "no-response-error")
+		verifAssert(k.end-k.start == k.budget, "fails-at-T-times-2^n-1")
+		verifAssert(last == 0 || offerAt >= k.budget, "returns-as-soon-as-acceptable-response-arrives")
+	}
+	c.pendingMu.Lock()
+	_, still := c.pending[verifXID]
+	c.pendingMu.Unlock()
+	verifAssert(!still, "transaction-id-released")
+	// let the rest of the burst arrive while no call is pending, then close
+	done := make(chan struct{})
+	verifAt(1<<36+1, func() { close(done) })
+	<-done
+	cerr := c.Close()
+	verifAssert(cerr == nil, "close-returns")
+	verifSettle()
+	verifAssert(verifGoroutines() == 0, "no-goroutine-left-after-close")
+	verifReach("end")
+}
